@@ -42,7 +42,8 @@ def _result(w, ops, t0, extra=None):
     for c in w.checkers:
         c.finish(w)
     r = {'ops': ops, 'events': w.events, 'digest': w.digest(), 'viol': w.viol, 'stats': w.stats,
-         'states': sorted(w.states), 'fs_fired': list(w.fs.fired), 'wall': time.time() - t0}
+         'states': sorted(w.states), 'fs_fired': list(w.fs.fired), 'wall': time.time() - t0,
+         'interleaving': getattr(w, 'interleaving', None)}
     if extra:
         r.update(extra)
     return r
@@ -64,7 +65,7 @@ def run_gen(job):
         w.execute(op)
         if len(ops) >= cap:
             break
-        if w.viol and cfg.get('stop_on_violation', True):
+        if w.viol and cfg.get('stop_on_violation', False):
             break
     return _result(w, ops, t0, {'info': info, 'seed': seed})
 
